@@ -90,7 +90,7 @@ theorem C02_xrefstm_entry (ranges : List (Nat × Nat)) (w1 w2 w3 : Nat) (rows : 
   have hspec := findIndex_rowSpec ranges rows n 0
   simp only [List.drop_zero] at hspec
   rw [← hspec]
-  simp only [XStream.getPos]
+  simp only [XStream.getPos, indexStart_eq]
   cases hi : findIndex ranges n 0 with
   | none => simp
   | some i =>
@@ -158,6 +158,34 @@ theorem C02_defaults (size : Nat) :
   refine ⟨rfl, rfl, rfl, rfl, rfl, rfl, ?_, ?_⟩
   · intro a b c; simp [zeroLengthRows]
   · intro off len; simp [rowInData]
+
+/-- Row addressing regenerated from `PDFXRefStream.load/get_pos/get_objids` means ISO 32000-1
+7.5.8.2–3: rows of `W1 + W2 + W3` bytes stored back to back, row `i` at `entlen · i`, the three
+fields cut in order; both readers address rows the same way; the `/Index` walk starts at row 0,
+a range `[s, s + c)` holding `n` gives row `acc + (n − s)`, any other range skips `c` rows. -/
+theorem C02_row_layout :
+    (∀ a b c, entlenOf a b c = a + b + c) ∧
+    (∀ e i, rowOffset e i = e * i ∧ objidsRowOffset e i = e * i) ∧
+    (∀ d off len, rowBytes d off len = (d.drop off).take len ∧ objidsRowBytes d off len = (d.drop off).take len) ∧
+    (∀ ent a b c, field1 ent a b c = ent.take a ∧ field2 ent a b c = (ent.drop a).take b ∧
+      field3 ent a b c = ent.drop (a + b) ∧ objidsField1 ent a b c = ent.take a) ∧
+    indexStart = 0 ∧
+    (∀ s c n, inRange s c n = true ↔ s ≤ n ∧ n < s + c) ∧
+    (∀ acc s c n, indexHit acc s c n = acc + (n - s) ∧ indexMiss acc s c n = acc + c) := by
+  refine ⟨fun _ _ _ => rfl, fun _ _ => ⟨rfl, rfl⟩, ?_, ?_, rfl, ?_, fun _ _ _ _ => ⟨rfl, rfl⟩⟩
+  · intro d off len
+    exact ⟨pySlice_window d off len, pySlice_window d off len⟩
+  · intro ent a b c
+    refine ⟨pySlice_prefix ent a, ?_, rfl, pySlice_prefix ent a⟩
+    exact pySlice_window ent a b
+  · intro s c n
+    simp [inRange]
+
+/-- `W = [1 2 1]`, row 1 of the data `00 0000 ff | 01 0123 00`: type 1, offset 0x0123, generation 0;
+object 7 in `/Index [3 2 7 4]` is row 2 + 0. -/
+example : (XStream.mk [(3, 2), (7, 4)] 1 2 1 [0, 0, 0, 255, 1, 1, 35, 0]).row 1 = (1, 291, 0) ∧
+    findIndex [(3, 2), (7, 4)] 7 indexStart = some 2 ∧ findIndex [(3, 2), (7, 4)] 5 indexStart = none := by
+  decide
 
 /-- Keywords and field shapes of the classic table, and the chaining order (7.5.8.4: the
 table of a hybrid file is consulted first, then its `XRefStm`, then `Prev`). -/
